@@ -502,7 +502,7 @@ func C19mesh(p *load.Program, run *report.Run) {
 			}
 		}
 		okAll := lenExpr != nil
-		for n := int64(2); n <= 4 && okAll; n++ {
+		for n := int64(2); n <= int64(bound(4, 7)) && okAll; n++ {
 			for peer := int64(1); peer < n; peer++ {
 				sent := int64(0)
 				for i := int64(0); i < n; i++ {
